@@ -122,10 +122,10 @@ func membersTrial(out *childOut, r *Rng, t int, thorough bool, script string) {
 		expected[1] = addr
 		next = 2
 		n.g.VerifCampaign()
-		return waitFor(5*time.Second, func() bool { return c.leader() != nil })
+		return waitFor(30*time.Second, func() bool { return c.leader() != nil })
 	}
 	if !boot() {
-		out.Violate("C20", "C20/no-leader", "the bootstrap node did not become leader of the zero group within 5 s")
+		out.Violate("C20", "C20/no-leader", "the bootstrap node did not become leader of the zero group within 30 s")
 		c.teardown()
 		return
 	}
